@@ -314,16 +314,16 @@ F13_WITNESS = [[2.0, 3.0], [-1.0, 0.0], [-9.0, -8.0]]
 def degenerate_fits(ctx):
     from tweakwcs import linearfit
     rng = ctx.rng
-    # probe of the recorded finding F13 (reported as KNOWN-FINDING while it still fails)
+    # regression probe of the repaired finding F13 (fixed 7128071): the witness must raise
     uvw = np.array(F13_WITNESS)
     case = {'op': 'degenerate', 'fitgeom': 'general', 'kind': 'collinear', 'uv': F13_WITNESS}
-    ctx.case(case, nontrivial=True, branch='probe:F13')
+    ctx.case(case, nontrivial=True, branch='regression:F13')
     try:
         linearfit.fit_general(uvw + np.array([1.0, -2.0]), uvw)
         ctx.oracle_fail(case, {'what': 'collinear points: fit_general returned arbitrary parameters instead of '
-                                       'raising SingularMatrixError', 'finding': 'F13'})
+                                       'raising SingularMatrixError (F13 has returned)'})
     except linearfit.SingularMatrixError:
-        ctx.note('finding F13 no longer reproduces on its witness')
+        pass
     for _ in range(ctx.n(40, 600)):
         geom = rng.choice(['general', 'rscale', 'rshift', 'shift'])
         kind = rng.choice(['collinear', 'coincident', 'toofew'])
@@ -370,9 +370,7 @@ def degenerate_fits(ctx):
                       [sum(a * a for a in u), sum(a * b for a, b in zip(u, v)), sum(u)],
                       [sum(a * b for a, b in zip(u, v)), sum(b * b for b in v), sum(v)]]
                 det = {'what': 'degenerate points for general fit did not raise SingularMatrixError',
-                       'got': res[0]}
-                if not exactly_computable(nm):
-                    det['finding'] = 'F13'
+                       'got': res[0], 'elimination_exact_in_binary': bool(exactly_computable(nm))}
                 ctx.oracle_fail(case, det)
         elif geom == 'rscale' and kind == 'coincident':
             if res[0] != 'SingularMatrixError':
